@@ -751,6 +751,13 @@ def add_reactor_cases(cases, name, patterns, products, kw, mols, tag, limit=4):
 
 
 def reactor_clauses(patterns, products, kw, mols, rng, builtin=False, limit=20):
+    try:
+        return _reactor_clauses(patterns, products, kw, mols, rng, builtin, limit)
+    except Exception as e:
+        return [('product-graph', f'the reactor oracle could not handle a product: {type(e).__name__}: {e}')]
+
+
+def _reactor_clauses(patterns, products, kw, mols, rng, builtin=False, limit=20):
     """property-level clauses on the public `Reactor.__call__` (real code only)"""
     from chython import Reactor
     kw = dict(kw)
@@ -1060,6 +1067,13 @@ def sig_str(m):
 
 
 def numbering_clauses(q, r, mol, kw=None, rng=None, rounds=2):
+    try:
+        return _numbering_clauses(q, r, mol, kw, rng, rounds)
+    except Exception as e:
+        return [('product-graph', f'the independence oracle could not handle a product: {type(e).__name__}: {e}')]
+
+
+def _numbering_clauses(q, r, mol, kw=None, rng=None, rounds=2):
     """the product set (canonical strings) does not depend on reactant numbering / insertion order"""
     import random
     from chython import Transformer
@@ -1071,8 +1085,11 @@ def numbering_clauses(q, r, mol, kw=None, rng=None, rounds=2):
     kw.setdefault('fix_aromatic_rings', False)
     t = Transformer(q, r, **kw)
     bad = []
+    cap = 60
     try:
-        prods = list(itertools.islice(t(mol), 50))
+        prods = list(itertools.islice(t(mol), cap + 1))
+        if len(prods) > cap:
+            return []   # too many matches to enumerate completely: a truncated enumeration is order dependent by construction
         base = sorted({sig_str(p) for p in prods})
     except Exception as e:
         # the template makes a chemically impossible product here (e.g. kekule() fails): not a numbering question, but the
@@ -1087,7 +1104,10 @@ def numbering_clauses(q, r, mol, kw=None, rng=None, rounds=2):
         if sig_str(m2) != sig_str(mol):
             continue   # canonical string itself not invariant here: that is C01's business, not a template defect
         try:
-            other = sorted({sig_str(p) for p in itertools.islice(t(m2), 50)})
+            others = list(itertools.islice(t(m2), cap + 1))
+            if len(others) > cap:
+                continue
+            other = sorted({sig_str(p) for p in others})
         except Exception as e:
             other = 'raises:' + type(e).__name__
         if other != base:
